@@ -52,6 +52,12 @@ def run(ctx, replay=None):
                         bad.append("time[%d]" % k); break
                     if any(not close(v, Fr(*w), atol=1e-13) for rowo, rowe in zip(ro["x"], re_["x"]) for v, w in zip(rowo, rowe)):
                         bad.append("profile[%d]" % k); break
+            if len(o.get("mesh", [])) != len(e["mesh"]):
+                bad.append("mesh-count")
+            else:
+                for k, (mo, me) in enumerate(zip(o["mesh"], e["mesh"])):
+                    if any(not close(v, Fr(*w), atol=1e-13) for rowo, rowe in zip(mo, me) for v, w in zip(rowo, rowe)):
+                        bad.append("setMeshtoRecordedTime[%d]" % k); break
             for k in ("stepsOK", "closed", "dirichlet", "timesIncrease"):
                 if not e[k]:
                     bad.append("spec:" + k)
